@@ -1231,3 +1231,67 @@ pub(crate) fn parse_length(input: &[u8]) -> IResult<&[u8], u16, DltParseError> {
     let (rest, (_, length)) = tuple((take(2usize), be_u16))(input)?;
     Ok((rest, length))
 }
+
+/// Thin public wrappers around private parser internals, used only by the
+/// out-of-tree verification harnesses (feature `verif_hooks`). Add-only.
+#[cfg(feature = "verif_hooks")]
+#[doc(hidden)]
+pub mod verif_hooks {
+    use super::*;
+
+    pub fn standard_header(input: &[u8]) -> IResult<&[u8], StandardHeader, DltParseError> {
+        dlt_standard_header(input)
+    }
+    pub fn extended_header(input: &[u8]) -> IResult<&[u8], ExtendedHeader, DltParseError> {
+        dlt_extended_header(input)
+    }
+    #[allow(clippy::type_complexity)]
+    pub fn storage_header(
+        input: &[u8],
+    ) -> IResult<&[u8], Option<(StorageHeader, u64)>, DltParseError> {
+        dlt_storage_header(input)
+    }
+    pub fn argument_be(input: &[u8]) -> IResult<&[u8], Argument, DltParseError> {
+        dlt_argument::<BigEndian>(input)
+    }
+    pub fn argument_le(input: &[u8]) -> IResult<&[u8], Argument, DltParseError> {
+        dlt_argument::<LittleEndian>(input)
+    }
+    pub fn payload(
+        input: &[u8],
+        big_endian: bool,
+        verbose: bool,
+        payload_length: u16,
+        arg_cnt: u8,
+        msg_type: Option<MessageType>,
+    ) -> IResult<&[u8], PayloadContent, DltParseError> {
+        if big_endian {
+            dlt_payload::<BigEndian>(input, verbose, payload_length, arg_cnt, msg_type)
+        } else {
+            dlt_payload::<LittleEndian>(input, verbose, payload_length, arg_cnt, msg_type)
+        }
+    }
+    pub fn message_intern<'a>(
+        input: &'a [u8],
+        filter_config_opt: Option<&filtering::ProcessedDltFilterConfig>,
+        with_storage_header: bool,
+    ) -> IResult<&'a [u8], ParsedMessage, DltParseError> {
+        dlt_message_intern(input, filter_config_opt, with_storage_header)
+    }
+    pub fn filtered_out(
+        extended_header: Option<&ExtendedHeader>,
+        filter_config_opt: Option<&filtering::ProcessedDltFilterConfig>,
+        ecu_id: Option<&String>,
+    ) -> bool {
+        super::filtered_out(extended_header, filter_config_opt, ecu_id)
+    }
+    pub fn validated_payload_length(
+        header: &StandardHeader,
+        remaining_bytes: usize,
+    ) -> Result<u16, DltParseError> {
+        super::validated_payload_length(header, remaining_bytes)
+    }
+    pub fn parse_length(input: &[u8]) -> IResult<&[u8], u16, DltParseError> {
+        super::parse_length(input)
+    }
+}
